@@ -92,18 +92,28 @@ def build(system, rows, momentum, struct, route="zip", spelling=0, extra=False, 
             cols = {n: col(i) for i, n in enumerate(names)}
         if extra:
             cols["charge"] = ak.Array(map_struct(struct, lambda r: int(r % 3 - 1))) if not _is_empty(struct) else ak.Array(numpy.zeros(0, dtype=numpy.int64))
+        depth_limit = None
+        if extra == "nested" and not _is_empty(struct):
+            # extra fields that are deeper than the vectors (a list and a string per vector): zipped only down to the
+            # vectors' own depth, as a user carrying per-particle hit lists does
+            depth_limit = cols[names[0]].layout.purelist_depth
+            cols["hits"] = ak.Array(map_struct(struct, lambda r: [float(r), float(r) + 0.5, -1.0][: (r % 4)]))
+            cols["label"] = ak.Array(map_struct(struct, lambda r: f"trk{r}"))
         if reverse_fields:
             cols = dict(reversed(list(cols.items())))
         if regular:
             cols = {k: ak.to_regular(v, axis=1) for k, v in cols.items()}
         if route == "zip":
-            return vector.zip(cols)
-        return ak.zip(cols, with_name=f"{flavor}{dim}D", behavior=vba.behavior)
+            return vector.zip(cols, depth_limit=depth_limit)
+        return ak.zip(cols, depth_limit=depth_limit, with_name=f"{flavor}{dim}D", behavior=vba.behavior)
     if route == "Array":
         def rec(r):
             d = {n: float(rows[r][i]) for i, n in enumerate(names)}
             if extra:
                 d["charge"] = int(r % 3 - 1)
+            if extra == "nested":
+                d["hits"] = [float(r), float(r) + 0.5, -1.0][: (r % 4)]
+                d["label"] = f"trk{r}"
             return d
         data = map_struct(struct, rec)
         arr = ak.Array(data)
